@@ -439,7 +439,12 @@ class Gauss:
             xis, etas, weights = Gauss._Triangle(nPg)  # type: ignore [assignment]
 
         elif elemType == ElemType.TRI10:
-            nPg = 6
+            if matrixType == MatrixType.rigi:
+                nPg = 6
+            elif matrixType == MatrixType.mass:
+                nPg = 12  # 6 points cannot give a rank-10 mass matrix
+            else:
+                raise ValueError("unknown matrixType")
             xis, etas, weights = Gauss._Triangle(nPg)  # type: ignore [assignment]
 
         elif elemType == ElemType.TRI15:
@@ -472,7 +477,12 @@ class Gauss:
             x, y, z, weights = Gauss._Tetrahedron(nPg)  # type: ignore [assignment]
 
         elif elemType == ElemType.TETRA10:
-            nPg = 4
+            if matrixType == MatrixType.rigi:
+                nPg = 4
+            elif matrixType == MatrixType.mass:
+                nPg = 15  # 4 points cannot give a rank-10 mass matrix
+            else:
+                raise ValueError("unknown matrixType")
             x, y, z, weights = Gauss._Tetrahedron(nPg)  # type: ignore [assignment]
 
         elif elemType == ElemType.HEXA8:
@@ -492,7 +502,9 @@ class Gauss:
             x, y, z, weights = Gauss._Prism(nPg)  # type: ignore [assignment]
 
         elif elemType == ElemType.PRISM15:
-            nPg = 6
+            # 6 points leave the stiffness with spurious zero-energy modes on regular
+            # meshes and cannot give a rank-15 mass matrix
+            nPg = 21
             x, y, z, weights = Gauss._Prism(nPg)  # type: ignore [assignment]
 
         elif elemType == ElemType.PRISM18:
